@@ -131,7 +131,7 @@ func (vc *FuncVC) genOnce() {
 			if tv, ok := base(name); ok {
 				return tv, true
 			}
-			return f.freeVar(name, r.state)
+			return f.freeVar(name, entry)
 		}
 		rs := fn.Signature.Results()
 		for i := 0; i < rs.Len(); i++ {
@@ -255,7 +255,7 @@ func (f *Frame) frameObligations(spec *FuncSpec, entry, final *State, reach stri
 
 // lemmaAxiom returns the axiom form of a lemma (after it has been proved).
 func (vc *FuncVC) lemmaAxiom(l *Lemma) (string, error) {
-	decl, _, req, ens, err := vc.lemmaParts(l, "")
+	decl, _, req, ens, err := vc.lemmaParts(l, "", true)
 	if err != nil {
 		return "", err
 	}
@@ -285,13 +285,7 @@ func (vc *FuncVC) lemmaTrigger(l *Lemma, text string) string {
 			vc.errorf("lemma %s trigger: %v", l.Name, err)
 			continue
 		}
-		ph := &paramHeap{vc: vc, used: map[string]bool{}}
-		env := &TEnv{vc: vc, pkg: l.Pkg, vars: map[string]TV{}, cur: ph, old: ph}
-		for _, p := range l.Params {
-			ty, _ := vc.eng.evalType(l.Pkg, p.Type)
-			env.vars[p.Name] = TV{"q!" + p.Name, ty}
-		}
-		tv, err := env.tr(e)
+		tv, err := vc.lemmaEnv.tr(e)
 		if err != nil {
 			vc.errorf("lemma %s trigger: %v", l.Name, err)
 			continue
@@ -302,10 +296,14 @@ func (vc *FuncVC) lemmaTrigger(l *Lemma, text string) string {
 }
 
 // lemmaParts translates a lemma with parameters named q!<name><sfx> and heap
-// arrays named h!<key>.
-func (vc *FuncVC) lemmaParts(l *Lemma, sfx string) (decl []string, heapDecl []string, req, ens string, err error) {
+// arrays named h!<key> (current) and h!<key>!old (inside old()).
+func (vc *FuncVC) lemmaParts(l *Lemma, sfx string, rebase bool) (decl []string, heapDecl []string, req, ens string, err error) {
+	var lenv *TEnv
+	defer func() { vc.lemmaEnv = lenv }()
 	ph := &paramHeap{vc: vc, used: map[string]bool{}}
-	env := &TEnv{vc: vc, pkg: l.Pkg, vars: map[string]TV{}, cur: ph, old: ph}
+	pho := &paramHeap{vc: vc, used: map[string]bool{}, sfx: "!old"}
+	env := &TEnv{vc: vc, pkg: l.Pkg, vars: map[string]TV{}, cur: ph, old: pho}
+	lenv = env
 	for _, p := range l.Params {
 		ty, e2 := vc.eng.evalType(l.Pkg, p.Type)
 		if e2 != nil {
@@ -313,6 +311,31 @@ func (vc *FuncVC) lemmaParts(l *Lemma, sfx string) (decl []string, heapDecl []st
 		}
 		env.vars[p.Name] = TV{"q!" + p.Name + sfx, ty}
 		decl = append(decl, fmt.Sprintf("(q!%s%s %s)", p.Name, sfx, vc.eng.sortOf(ty)))
+	}
+	if rebase {
+		// integer parameters used as slice indices occur bare in the axiom
+		// (see the note on quantifiers in specx.go)
+		for _, p := range l.Params {
+			tv := env.vars[p.Name]
+			if !isIntType(tv.Ty) {
+				continue
+			}
+			only := map[string]bool{p.Name: true}
+			var se Expr
+			for _, c := range append(append([]*Clause{}, l.Requires...), l.Ensures...) {
+				if se = findIndexedSlice(c.Expr, p.Name, only); se != nil {
+					break
+				}
+			}
+			if se == nil {
+				continue
+			}
+			if stv, err := env.tr(se); err == nil && stv.Ty != nil {
+				if _, isSl := stv.Ty.Underlying().(*types.Slice); isSl {
+					env.vars[p.Name] = TV{S("-", tv.T, S("s-off", stv.T)), tv.Ty}
+				}
+			}
+		}
 	}
 	var rs, es []string
 	for _, c := range l.Requires {
@@ -329,13 +352,15 @@ func (vc *FuncVC) lemmaParts(l *Lemma, sfx string) (decl []string, heapDecl []st
 		}
 		es = append(es, tv.T)
 	}
-	var keys []string
-	for k := range ph.used {
-		keys = append(keys, k)
-	}
-	sort.Strings(keys)
-	for _, k := range keys {
-		heapDecl = append(heapDecl, fmt.Sprintf("(h!%s %s)", sym(k), vc.eng.keySort[k]))
+	for _, h := range []*paramHeap{ph, pho} {
+		var keys []string
+		for k := range h.used {
+			keys = append(keys, k)
+		}
+		sort.Strings(keys)
+		for _, k := range keys {
+			heapDecl = append(heapDecl, fmt.Sprintf("(h!%s%s %s)", sym(k), h.sfx, vc.eng.keySort[k]))
+		}
 	}
 	decl = append(decl, heapDecl...)
 	return decl, heapDecl, And(rs...), And(es...), nil
@@ -344,8 +369,9 @@ func (vc *FuncVC) lemmaParts(l *Lemma, sfx string) (decl []string, heapDecl []st
 // genLemma produces the proof obligation(s) of a lemma.
 func (vc *FuncVC) genLemma(l *Lemma) {
 	vc.reset()
+	vc.lemmaReveal = l.Reveal
 	vc.key = "lemma:" + l.Name
-	decl, _, req, ens, err := vc.lemmaParts(l, "")
+	decl, _, req, ens, err := vc.lemmaParts(l, "", false)
 	if err != nil {
 		vc.errorf("%v", err)
 		return
@@ -376,7 +402,8 @@ func (vc *FuncVC) genLemma(l *Lemma) {
 		}
 		// re-translate with renamed params
 		ph := &paramHeap{vc: vc, used: map[string]bool{}}
-		env := &TEnv{vc: vc, pkg: l.Pkg, vars: map[string]TV{}, cur: ph, old: ph}
+		pho := &paramHeap{vc: vc, used: map[string]bool{}, sfx: "!old"}
+		env := &TEnv{vc: vc, pkg: l.Pkg, vars: map[string]TV{}, cur: ph, old: pho}
 		for _, p := range l.Params {
 			ty, _ := vc.eng.evalType(l.Pkg, p.Type)
 			if p.Name == l.Induct {
